@@ -33,6 +33,7 @@ fn run_ops_from(whitelist: bool, ops: usize, flipped: bool) {
         last = now;
     }
     let mut pending = [false; 2];
+    let mut despawned = [false; 2];
     let mut ticks = 0;
     let mut lost_seen = false;
     let mut gained_seen = false;
@@ -40,6 +41,8 @@ fn run_ops_from(whitelist: bool, ops: usize, flipped: bool) {
         let kind: u8 = kani::any();
         let idx: usize = kani::any();
         kani::assume(kind < 4 && idx < 2);
+        // ASSUME: a despawned entity id is not used again (ids are never reused with the same generation)
+        kani::assume(kind == 3 || !despawned[idx]);
         match kind {
             0 => {
                 visibility.set_visibility(E[idx], true);
@@ -56,6 +59,7 @@ fn run_ops_from(whitelist: bool, ops: usize, flipped: bool) {
                 assert!(told_directly == now[idx]);
                 visibility.remove_despawned(E[idx]);
                 pending[idx] = pending[idx] || (last[idx] && !told_directly);
+                despawned[idx] = true;
                 now[idx] = default_visible;
                 last[idx] = default_visible;
             }
